@@ -19,8 +19,11 @@ FUNCTIONS = [
 BOUNDS = ("STRUCTURE of every line, numeric rendering under contract. Cell grid: 28 emitting call "
           "shapes (some with a user comment=) (incl. int arguments, and numpy scalars np.float32/np.float16/np.int64 as concrete "
           "enumerated values) x formatter configuration {decimal places 0,1,5,8,12} x comment style "
-          "{;, (} x line ending {LF, CRLF} x axis relabelling {default, X->A Y->B Z->U} (quick: 6 "
-          "configurations). Solver over: all numeric arguments (reals, NaN, +-inf; ints). Checked: "
+          "{;, (, [} x line ending {LF, CRLF} x axis relabelling {default, X->A Y->B Z->U} x how the "
+          "configuration was reached {constructor, a default builder that already emitted lines and "
+          "is then reconfigured through the formatter setters} (quick: 8 configurations). Plus two-builder cells: two builders with different "
+          "configurations alive at once emit the same symbolic values alternately; each line follows "
+          "its own builder's configuration. Solver over: all numeric arguments (reals, NaN, +-inf; ints). Checked: "
           "the output is whole lines each ending in exactly the configured terminator; at most one "
           "comment, last; every other item is an address word LETTERS+payload; each numeric "
           "payload is either the literal 0 -- allowed only when |requested value| <= half a unit "
@@ -39,11 +42,28 @@ ASSUMPTIONS = [
 
 def _cfg_builder(cfg):
     from gscrib import GCodeBuilder
-    dp, style, ending, relabel = cfg
+    dp, style, ending, relabel, via = cfg
     kw = dict(decimal_places=dp, comment_symbols=style,
               line_endings=ending.encode("unicode-escape").decode("ascii"))
     if relabel:
         kw.update(x_axis="A", y_axis="B", z_axis="U")
+    if via == "switch":
+        # a default builder that has already emitted numbers, words and comments is RECONFIGURED
+        # through the formatter's setters: nothing may remain from the first configuration
+        g = GCodeBuilder()
+        rec = Rec()
+        g.add_writer(rec)
+        g.comment("first (style) ; text")
+        g.move(x=0.125, y=-7.0625, F=1200.5, comment="warm up")
+        g.set_distance_mode("absolute")
+        g.format.set_decimal_places(dp)
+        g.format.set_comment_symbols(style)
+        g.format.set_line_endings(kw["line_endings"])
+        if relabel:
+            for axis, label in (("x", "A"), ("y", "B"), ("z", "U")):
+                g.format.set_axis_label(axis, label)
+        rec.clear()
+        return g, rec
     g = GCodeBuilder(**kw)
     rec = Rec()
     g.add_writer(rec)
@@ -87,6 +107,9 @@ def _emitters():
                                  lambda a, b, n: {"Y": a, "G": "G28"}, "f")
     E["move(x,comment)"] = (lambda g, a, b, n: g.move(x=a, comment="cut"),
                             lambda a, b, n: {"X": a, "G": "G1"}, "f")
+    E["move(x,comment-symbols)"] = (lambda g, a, b, n: g.move(x=a, comment="depth (mm) G0 Z-50 ; x ] y"),
+                                    lambda a, b, n: {"X": a, "G": "G1"}, "f")
+    E["comment(symbols)"] = (lambda g, a, b, n: g.comment("a) G0 Z-5 ;(b] c"), lambda a, b, n: {}, "")
     E["halt(bed,S)"] = (lambda g, a, b, n: g.halt("wait-for-bed", S=a),
                         lambda a, b, n: {"S": a, "M": "M190"}, "f")
     E["move(int x, int F)"] = (lambda g, a, b, n: g.move(x=n, F=n * n),
@@ -120,7 +143,7 @@ def _nonfinite(v):
 
 
 def check_output(name, text, cfg, expected, raised):
-    dp, style, ending, relabel = cfg
+    dp, style, ending, relabel, _via = cfg
     labels = {"X": "A", "Y": "B", "Z": "U"} if relabel else {}
     half = 0.5 * 10 ** (-dp)
     ctx = lambda: f"output={text!r} cfg={cfg!r}"  # noqa: E731
@@ -146,8 +169,8 @@ def check_output(name, text, cfg, expected, raised):
             end = rest.find(closer)
             if end < 0 or rest[end + len(closer):].strip() != "":
                 return V(f"{name}-comment-not-last-or-not-closed", ctx)
-            if style in rest[:end] and style != closer:
-                return V(f"{name}-more-than-one-comment", ctx)
+            # an opening symbol inside the comment text is part of that one comment (the comment
+            # runs from the opener to the first closer), as in C09's lexer
         elif style in rest:
             pass  # ';' style: the rest of the line is the comment
     seen = {}
@@ -193,6 +216,13 @@ def check_output(name, text, cfg, expected, raised):
                          lambda: f"{letters}{payload!r} was not produced by number(); {ctx()}")
             tv, kw = TOKENS.values[int(mt.group(1))]
             if kw != dict(precision=dp, unique=True, fractional=True, sign=False, trim="-"):
+                others = {k: v for k, v in kw.items() if k != "precision"}
+                if others == dict(unique=True, fractional=True, sign=False, trim="-") and tv == value:
+                    # only the precision differs: a value with no digits beyond the smaller of the
+                    # two precisions is rendered identically, so it is no witness
+                    t = value * 10 ** min(int(kw.get("precision", 0)), dp)
+                    if t == int(t):
+                        continue
                 return V(f"{name}-wrong-formatting-options", lambda: f"{letters}: {kw!r}; {ctx()}")
             if not (tv == value):
                 return V(f"{name}-wrong-value-formatted",
@@ -265,12 +295,40 @@ def _make(name, cfg):
     return h
 
 
+def _make_two(name, cfg_a, cfg_b):
+    """Two builders alive at once with different configurations: each one's lines follow its own
+    configuration whatever the other one has emitted (no formatter state is shared)."""
+    call, expect, kinds = emitters()[name]
+
+    def h(a: Finite, b: Finite):
+        TOKENS.clear()
+        assume(a >= 0)
+        assume(b >= 0)
+        ga, ra = _cfg_builder(cfg_a)
+        gb, rb = _cfg_builder(cfg_b)
+        for g, rec, cfg, tag in ((ga, ra, cfg_a, "first"), (gb, rb, cfg_b, "second"), (ga, ra, cfg_a, "first-again")):
+            rec.clear()
+            g._rec = rec
+            try:
+                call(g, a, b, 0)
+            except Exception as e:  # noqa: BLE001
+                msg = f"{type(e).__name__}: {e}"
+                return V(f"two-builders-{name}-unexpected-exception", lambda: f"{tag}: {msg}")
+            v = check_output(f"two-builders-{tag}-{name}", rec.text(), cfg, expect(a, b, 0), None)
+            if v is not None:
+                return v
+        reached("emitted")
+        return None
+    return h
+
+
 def configs(tier):
     if tier == "quick":
-        return [(5, ";", "\n", False), (0, "(", "\r\n", True), (8, ";", "\r\n", False),
-                (12, "(", "\n", False), (1, ";", "\n", True), (3, "[", "\n", False)]
-    return [(dp, st, en, rl) for dp in (0, 1, 5, 8, 12) for st in (";", "(") for en in ("\n", "\r\n")
-            for rl in (False, True)]
+        return [(5, ";", "\n", False, "ctor"), (0, "(", "\r\n", True, "ctor"), (8, ";", "\r\n", False, "ctor"),
+                (12, "(", "\n", False, "ctor"), (1, ";", "\n", True, "ctor"), (3, "[", "\n", False, "ctor"),
+                (2, "(", "\r\n", True, "switch"), (9, "[", "\n", False, "switch")]
+    return [(dp, st, en, rl, via) for dp in (0, 1, 5, 8, 12) for st in (";", "(", "[") for en in ("\n", "\r\n")
+            for rl in (False, True) for via in ("ctor", "switch")]
 
 
 def cells(tier):
@@ -278,7 +336,15 @@ def cells(tier):
     for cfg in configs(tier):
         for name in emitters():
             cname = (f"{name}|dp={cfg[0]}|style={cfg[1]}|eol={cfg[2].encode('unicode-escape').decode()}"
-                     f"|relabel={cfg[3]}")
+                     f"|relabel={cfg[3]}|{cfg[4]}")
             out.append(Cell(cname, _make(name, cfg), budget_s=120 if tier == "quick" else 400,
                             entry=f"GCodeBuilder.{name.split('(')[0]}"))
+    two = [((1, ";", "\n", False, "ctor"), (5, ";", "\n", False, "ctor")),
+           ((8, "(", "\r\n", True, "ctor"), (2, ";", "\n", False, "ctor")),
+           ((0, ";", "\n", False, "switch"), (12, "[", "\n", True, "ctor"))]
+    for cfg_a, cfg_b in two:
+        for name in ("move(x,F)", "set_feed_rate", "move(x,comment-symbols)", "set_axis(x,E)"):
+            out.append(Cell(f"two-builders|{name}|dp={cfg_a[0]},{cfg_b[0]}|style={cfg_a[1]},{cfg_b[1]}",
+                            _make_two(name, cfg_a, cfg_b), budget_s=120 if tier == "quick" else 400,
+                            must_reach=("emitted",), entry="two GCodeBuilder instances"))
     return out
